@@ -337,6 +337,13 @@ AgreeInv ==
      /\ st["A"].peer = "B" /\ st["B"].peer = "A"
      /\ st["A"].rev # st["B"].rev
 
+\* C08: at most the current and the previous DH key and the exchange's own exponent exist; nothing at
+\* rest; sent text only while it may be (re)transmitted
+NoSecretsAtRest == \A p \in Parties : (st[p].ms # "enc" /\ st[p].auth \in {"nil", "none"}) => (st[p].cur = 0 /\ st[p].prev = 0 /\ st[p].ax = 0)
+TextRetention == \A p \in Parties : /\ (st[p].ms = "enc" => Len(st[p].rsq) <= 1)
+                                  /\ (st[p].ms = "fin" => st[p].rsq = <<>>)
+                                  /\ (st[p].ms = "plain" /\ ~st[p].pol.req => st[p].rsq = <<>>)
+
 \* C11: SMP reports success exactly when the bound secret terms are equal (same fingerprints, same
 \* session, same secret) and the message belongs to the run in progress; never with unequal terms
 SMPSuccessSound == \A p \in Parties : \A i \in DOMAIN smplog[p] :
